@@ -45,6 +45,15 @@ def lattice(bits, signed, tier, seed=0):
                 core.add((-v) & M(w))
         core.discard(0)
         out = sorted(core)
+        if bits >= 32:
+            # quick tier: a fixed budget of divisors per type, always including the corners
+            must = [1, 2, 3, 7, 10, M(w), M(w) - 1, 1 << (w - 1), (1 << (w - 1)) - 1, 641 & M(w)]
+            if signed:
+                must += [M(w), (-2) & M(w), (-3) & M(w), (-7) & M(w), (1 << (w - 1)) + 1]
+            rest = [v for v in out if v not in must]
+            rnd = random.Random(seed * 31 + bits)
+            rnd.shuffle(rest)
+            out = sorted(set(must) | set(rest[:14]))
     else:
         rnd = random.Random(seed * 1000003 + bits * 2 + signed)
         extra = set()
@@ -84,8 +93,8 @@ DOPS = [
     DOp('vd_rem_assign', 'vector', 'vf::rem_assign(n, D)', 'rem', 'thorough'),
     DOp('vd_value', 'vector', 'D.value()', 'value'),
     DOp('vdb_quot', 'broadcast', 'div(n, D).quot', 'quot'),
-    DOp('vdb_rem', 'broadcast', 'div(n, D).rem', 'rem'),
-    DOp('vdb_value', 'broadcast', 'D.value()', 'value'),
+    DOp('vdb_rem', 'broadcast', 'div(n, D).rem', 'rem', 'thorough'),
+    DOp('vdb_value', 'broadcast', 'D.value()', 'value', 'thorough'),
 ]
 BY_NAME = {d.name: d for d in DOPS}
 
@@ -260,7 +269,7 @@ def replay_denom(prop, meta, cfg, fn, model, dvals, kind):
             'confirmed': confirmed, 'details': details}
     json.dump(case, open(os.path.join(outdir, 'case.json'), 'w'), indent=1, default=str)
     sh = os.path.join(outdir, 'run.sh')
-    open(sh, 'w').write('#!/bin/sh\nexec python3-vt -m avelverif.denom "%s"\n' % outdir)
+    open(sh, 'w').write('#!/bin/sh\ncd "%s" && exec python3-vt -m avelverif.denom "%s"\n' % (replay.ROOT, outdir))
     os.chmod(sh, 0o755)
     return {'confirmed': confirmed, 'detail': details, 'path': sh, 'inputs': ['n=' + replay.fmt(nvals), 'd=' + replay.fmt(dv)], 'rm': 'RNE'}
 
@@ -367,7 +376,7 @@ def solve_task(task):
                     if not rp['confirmed']:
                         res['unconfirmed'].append(rec)
                     else:
-                        ent = known.match(task.get('known', []), task['prop'], meta, cfg, s['kind'])
+                        ent = known.match(task.get('known', []), task['prop'], meta, cfg, s['kind'], s.get('desc', ''))
                         if ent is None:
                             res['violations'].append(rec)
                         else:
@@ -388,7 +397,7 @@ def solve_task(task):
                     rec = {'kind': s['kind'], 'desc': s['desc'], 'inputs': rp['inputs'], 'rm': 'RNE', 'replay': rp['path'],
                            'confirmed': rp['confirmed'], 'detail': rp['detail'], 'solver': 'z3'}
                     if rp['confirmed']:
-                        ent = known.match(task.get('known', []), task['prop'], meta, cfg, s['kind'])
+                        ent = known.match(task.get('known', []), task['prop'], meta, cfg, s['kind'], s.get('desc', ''))
                         if ent is None:
                             res['violations'].append(rec)
                         else:
@@ -399,8 +408,9 @@ def solve_task(task):
             res['undecided'] += [dict(u, divisors=replay.fmt(list(dvals)) if dvals else 'symbolic') for u in und]
             done_groups += 1
             # one reproduced violation / known hit per class is enough for this wrapper
-            if len(res['violations']) >= 3 or len(res['known_hits']) >= 3:
-                res['note'] = 'stopped after 3 reproduced counterexamples'
+            lim = 1 if quick else 3
+            if len(res['violations']) >= lim or len(res['known_hits']) >= lim:
+                res['note'] = 'stopped after %d reproduced counterexample(s)' % lim
                 break
         res['groups_done'] = done_groups
         res['groups_total'] = len(groups)
